@@ -184,4 +184,804 @@ theorem scalar_valid (R : String → Json → Bool) (props : List String) (kind 
       · exact h2
     · exact base e h1
 
+/-! ### `null` decodes to a nil value on the fragment -/
+
+theorem denScalar_null (kind : String) : denScalar kind .null = false := by
+  unfold denScalar
+  split
+  · rfl
+  · split
+    · rfl
+    · split
+      · rfl
+      · split <;> rfl
+
+theorem den_null_nil (ss : Schemas) : ∀ (n : Nat) (t : Ty), den n ss t .null = true → goDecode n ss t .null = .ok .nil := by
+  intro n
+  induction n with
+  | zero => intro t h; simp [den] at h
+  | succ n ih =>
+    intro t h
+    cases t with
+    | scalar kind val cs m =>
+      simp only [den] at h
+      simp only [goDecode]
+      by_cases hb : kind = "bytes"
+      · simp [hb] at h
+      · simp only [hb, if_false] at h ⊢
+        by_cases ha : kind = "any"
+        · subst ha; simp only [if_true]; exact decodeScalar_any_null
+        · simp only [ha, if_false] at h ⊢
+          have hn : m.nullable = true := by
+            split at h
+            · simpa [Json.isNull] using h
+            · simpa [Json.isNull, denScalar_null] using h
+          simp [wrapPtr, hn, Json.isNull]
+    | array e m =>
+      simp only [den, Bool.and_eq_true, Bool.not_eq_true'] at h
+      simp [goDecode, h.1]
+    | map idx vt m =>
+      simp only [den] at h
+      simp only [goDecode]
+      split at h
+      · rfl
+      · simp at h
+    | ref pkg name m =>
+      simp only [den] at h
+      simp only [goDecode]
+      cases ho : Schemas.locateObject ss pkg name with
+      | none => simp [ho] at h
+      | some o =>
+        simp only [ho] at h ⊢
+        cases hty : o.ty with
+        | struct fields gen gi sm =>
+          cases gi with
+          | none =>
+            simp only [hty, Json.isNull, Bool.and_true, Bool.or_false] at h
+            simp [wrapPtr, h, Json.isNull]
+          | some hi =>
+            obtain ⟨hint, info⟩ := hi
+            simp only [hty] at h ⊢
+            have hn : m.nullable = true := by
+              split at h
+              · simpa [Json.isNull, noNulls] using h
+              · simpa [Json.isNull] using h
+            simp [wrapPtr, hn, Json.isNull]
+        | enum vals em =>
+          cases vals with
+          | nil => simp [hty] at h
+          | cons v0 rest =>
+            simp only [hty, Json.isNull, Bool.and_true, denScalar_null, Bool.or_false] at h
+            simp [wrapPtr, h, Json.isNull]
+        | scalar kind sv scs om =>
+          simp only [hty, Json.isNull, Bool.and_true, denScalar_null, Bool.or_false, Bool.and_eq_true] at h ⊢
+          have hb : kind ≠ "bytes" := by simpa using h.1.1.1.2
+          simp [hb, wrapPtr, h.2, Json.isNull]
+        | array ae am =>
+          simp only [hty, Bool.and_eq_true] at h ⊢
+          exact ih _ h.2
+        | map mi mv mm =>
+          simp only [hty, Bool.and_eq_true] at h ⊢
+          exact ih _ h.2
+        | ref rp rn rm =>
+          simp only [hty] at h ⊢
+          exact ih _ h
+        | cref _ _ _ _ => simp [hty] at h
+        | disj _ _ _ => simp [hty] at h
+        | inter _ _ => simp [hty] at h
+        | slot _ _ => simp [hty] at h
+        | bad _ _ => simp [hty] at h
+    | cref pkg name val m => simp [den] at h
+    | struct _ _ _ _ => simp [den] at h
+    | enum _ _ => simp [den] at h
+    | disj _ _ _ => simp [den] at h
+    | inter _ _ => simp [den] at h
+    | slot _ _ => simp [den] at h
+    | bad _ _ => simp [den] at h
+
+/-! ### struct fields -/
+
+/-- the induction hypothesis at depth `n`: with at least `n` units of `$ref` fuel -/
+def PH (D : Def) (ss : Schemas) (n : Nat) : Prop :=
+  ∀ F, n ≤ F → ∀ t node j, describes D n ss t node = true → den n ss t j = true → sat n ss t j = true →
+    ∃ v, goDecode n ss t j = .ok v ∧ vNode (Rec D F) (.obj node) (goEncode v) = true
+
+theorem vProps_cons (R : String → Json → Bool) (name : String) (s : JS) (rest : Def) (ms : List (String × Json)) :
+    vProps R ((name, s) :: rest) ms =
+      ((match Json.lookup name ms with
+        | some x => vNode R s x
+        | none => true) && vProps R rest ms) := by
+  cases h : Json.lookup name ms <;> simp only [vProps, h]
+
+theorem vProps_all (R : String → Json → Bool) (ps : Def) (ms : List (String × Json))
+    (h : ∀ e ∈ ps, ∀ x, Json.lookup e.1 ms = some x → vNode R e.2 x = true) : vProps R ps ms = true := by
+  induction ps with
+  | nil => simp [vProps]
+  | cons e t ih =>
+    obtain ⟨k, s⟩ := e
+    rw [vProps_cons, Bool.and_eq_true]
+    refine ⟨?_, ih (fun e he => h e (List.mem_cons_of_mem _ he))⟩
+    cases hl : Json.lookup k ms with
+    | none => rfl
+    | some x => exact h (k, s) (by simp) x hl
+
+theorem desc_fields (d : Ty → Def → Bool) : ∀ (fs : List Field) (ps : Def), describesFieldsWith d fs ps = true →
+    ps.map (·.1) = fs.map (·.name) ∧
+    ((fs.map (·.name)).Nodup → ∀ f ∈ fs, ∃ nd, rget f.name ps = some (.obj nd) ∧ d f.ty nd = true)
+  | [], [], _ => ⟨rfl, by simp⟩
+  | [], _ :: _, h => by simp [describesFieldsWith] at h
+  | f :: fs, [], h => by simp [describesFieldsWith] at h
+  | f :: fs, (k, s) :: ps, h => by
+    cases s with
+    | obj nd =>
+      simp only [describesFieldsWith, Bool.and_eq_true, beq_iff_eq] at h
+      obtain ⟨⟨hk, hd⟩, hrest⟩ := h
+      obtain ⟨g1, g2⟩ := desc_fields d fs ps hrest
+      refine ⟨by simp [g1, hk], ?_⟩
+      intro nd' f' hf'
+      simp only [List.map_cons, List.nodup_cons] at nd'
+      rcases List.mem_cons.1 hf' with h1 | h1
+      · subst h1; exact ⟨nd, by simp [rget, hk], hd⟩
+      · obtain ⟨nd2, h2, h3⟩ := g2 nd'.2 f' h1
+        refine ⟨nd2, ?_, h3⟩
+        have hne : ¬ k = f'.name := by
+          intro c
+          apply nd'.1
+          rw [hk, c]
+          exact List.mem_map.2 ⟨f', h1, rfl⟩
+        simp [rget, hne, h2]
+    | _ => simp [describesFieldsWith] at h
+
+theorem lookup_encFields_full {k : String} {om : Bool} {gv : GoVal} {fl : List (String × Bool × GoVal)}
+    (nd : (fl.map (·.1)).Nodup) (h : (k, om, gv) ∈ fl) :
+    Json.lookup k (encFields fl) = if (om && isEmpty gv) = true then none else some (goEncode gv) := by
+  induction fl with
+  | nil => simp at h
+  | cons e t ih =>
+    obtain ⟨a, om', gv'⟩ := e
+    simp only [List.map_cons, List.nodup_cons] at nd
+    rcases List.mem_cons.1 h with c | c
+    · cases c
+      simp only [encFields]
+      split
+      · -- omitted: the key does not occur later
+        rename_i hom
+        have : Json.lookup k (encFields t) = none := by
+          cases hl : Json.lookup k (encFields t) with
+          | none => rfl
+          | some x =>
+            exfalso
+            obtain ⟨om2, gv2, hm, _⟩ := mem_encFields (mem_of_lookup hl)
+            exact nd.1 (List.mem_map.2 ⟨(k, om2, gv2), hm, rfl⟩)
+        rw [this]
+      · simp [Json.lookup]
+    · have hne : ¬ a = k := by
+        intro e; subst e
+        exact nd.1 (List.mem_map.2 ⟨(a, om, gv), c, rfl⟩)
+      simp only [encFields]
+      split
+      · exact ih nd.2 c
+      · simp [Json.lookup, hne, ih nd.2 c]
+
+theorem rget_js_of_mem {k : String} {v : JS} {l : Def} (nd : (l.map (·.1)).Nodup) (h : (k, v) ∈ l) :
+    rget k l = some v := by
+  induction l with
+  | nil => simp at h
+  | cons e t ih =>
+    obtain ⟨a, b⟩ := e
+    simp only [List.map_cons, List.nodup_cons] at nd
+    rcases List.mem_cons.1 h with c | c
+    · cases c; simp [rget]
+    · have : ¬ a = k := by
+        intro e; subst e
+        exact nd.1 (List.mem_map.2 ⟨(a, v), c, rfl⟩)
+      simp [rget, this, ih nd.2 c]
+
+theorem fields_valid {D : Def} {ss : Schemas} {n F : Nat} (ih : PH D ss n) (hF : n ≤ F) (fields : List Field)
+    (ps : Def) (members : List (String × Json))
+    (ndm : keysNodup members = true) (ndf : namesNodup (fields.map (·.name)) = true)
+    (hsub : members.all (fun kv => (fields.map (·.name)).contains kv.1) = true)
+    (hden : denFieldsWith (den n ss) fields members = true)
+    (hsat : satFieldsWith (sat n ss) fields members = true)
+    (hdesc : describesFieldsWith (describes D n ss) fields ps = true) :
+    ∃ fl, decodeFieldsWith (goDecode n ss) fields members = .ok fl ∧
+      (∀ kv ∈ encFields fl, kv.1 ∈ fields.map (·.name)) ∧
+      (∀ f ∈ fields, f.required = true → (Json.lookup f.name (encFields fl)).isSome = true) ∧
+      vProps (Rec D F) ps (encFields fl) = true ∧ ps.map (·.1) = fields.map (·.name) := by
+  have ndf' : (fields.map (·.name)).Nodup := (namesNodup_iff _).1 ndf
+  obtain ⟨hkeys, hnodes⟩ := desc_fields _ fields ps hdesc
+  have hsub' : ∀ kv ∈ members, (fields.map (·.name)).contains kv.1 = true := by
+    simpa [List.all_eq_true] using hsub
+  have hfun : (fun (f : Field) =>
+          (goDecode n ss f.ty ((memberFor (fields.map (·.name)) f.name members).getD .null)).map
+            fun v => (f.name, !f.required, v)) =
+      (fun (f : Field) =>
+          (goDecode n ss f.ty ((Json.lookup f.name members).getD .null)).map
+            fun v => (f.name, !f.required, v)) := by
+    funext f
+    rw [memberFor_eq_lookup _ _ _ ndm hsub']
+  -- per-field decoding
+  have step : ∀ fs : List Field, (∀ f ∈ fs, f ∈ fields) →
+      ∃ fl, mapRes (fun (f : Field) =>
+          (goDecode n ss f.ty ((Json.lookup f.name members).getD .null)).map
+            fun v => (f.name, !f.required, v)) fs = .ok fl ∧
+        All2 (fun (f : Field) (e : String × Bool × GoVal) =>
+          e.1 = f.name ∧ e.2.1 = !f.required ∧
+            (((Json.lookup f.name members).getD .null).isNull = true → e.2.2 = .nil ∧ f.required = false) ∧
+            (((Json.lookup f.name members).getD .null).isNull = false →
+              ∃ nd, rget f.name ps = some (.obj nd) ∧ vNode (Rec D F) (.obj nd) (goEncode e.2.2) = true)) fs fl := by
+    intro fs
+    induction fs with
+    | nil => intro _; exact ⟨[], rfl, .nil⟩
+    | cons f t iht =>
+      intro hmem
+      have hf : f ∈ fields := hmem f (by simp)
+      have hdf := (List.all_eq_true.1 hden) f hf
+      have hsf := (List.all_eq_true.1 hsat) f hf
+      simp only [Bool.and_eq_true] at hdf
+      obtain ⟨fl, hfl, ha⟩ := iht (fun f' hf' => hmem f' (by simp [hf']))
+      cases hl : Json.lookup f.name members with
+      | none =>
+        simp only [hl, Bool.and_eq_true, Bool.not_eq_true'] at hdf hsf
+        have hreq : f.required = false := by simpa using hsf
+        have hdec := den_null_nil ss n f.ty hdf.2.2
+        refine ⟨(f.name, !f.required, .nil) :: fl, ?_, .cons ⟨rfl, rfl, ?_, ?_⟩ ha⟩
+        · simp only [mapRes, hl, Option.getD_none, hdec, DRes.map, DRes.bind] at hfl ⊢
+          rw [hfl]
+        · intro _; exact ⟨rfl, hreq⟩
+        · intro h; simp [hl, Json.isNull] at h
+      | some x =>
+        simp only [hl, Bool.and_eq_true] at hdf hsf
+        by_cases hx : x.isNull = true
+        · have hxn : x = .null := by cases x <;> simp_all [Json.isNull]
+          subst hxn
+          have hreq : f.required = false := by simpa [Json.isNull] using hsf
+          have hdec := den_null_nil ss n f.ty hdf.2.1
+          refine ⟨(f.name, !f.required, .nil) :: fl, ?_, .cons ⟨rfl, rfl, ?_, ?_⟩ ha⟩
+          · simp only [mapRes, hl, Option.getD_some, hdec, DRes.map, DRes.bind] at hfl ⊢
+            rw [hfl]
+          · intro _; exact ⟨rfl, hreq⟩
+          · intro h; simp [hl, Json.isNull] at h
+        · simp only [Bool.not_eq_true] at hx
+          simp only [hx, Bool.false_eq_true, if_false] at hsf
+          obtain ⟨nd, hnd, hdn⟩ := hnodes ndf' f hf
+          obtain ⟨v, hv, hvalid⟩ := ih F hF f.ty nd x hdn hdf.2.1 hsf
+          refine ⟨(f.name, !f.required, v) :: fl, ?_, .cons ⟨rfl, rfl, ?_, ?_⟩ ha⟩
+          · simp only [mapRes, hl, Option.getD_some, hv, DRes.map, DRes.bind] at hfl ⊢
+            rw [hfl]
+          · intro h; simp [hl, hx] at h
+          · intro _; exact ⟨nd, hnd, hvalid⟩
+  obtain ⟨fl, hfl, ha⟩ := step fields (fun _ h => h)
+  have hflkeys : fl.map (·.1) = fields.map (·.name) :=
+    ha.map_eq (·.name) (·.1) (fun _ _ h => h.1)
+  have ndfl : (fl.map (·.1)).Nodup := by rw [hflkeys]; exact ndf'
+  refine ⟨fl, ?_, ?_, ?_, ?_, hkeys⟩
+  · unfold decodeFieldsWith; rw [hfun]; exact hfl
+  · rintro ⟨k, x⟩ hx
+    obtain ⟨om, gv, hmem, _⟩ := mem_encFields hx
+    rw [← hflkeys]
+    exact List.mem_map.2 ⟨(k, om, gv), hmem, rfl⟩
+  · intro f hf hreq
+    obtain ⟨e, he, hk, hom, _, _⟩ := ha.mem_left hf
+    obtain ⟨ek, eom, egv⟩ := e
+    simp only at hk hom
+    subst hk
+    rw [lookup_encFields_full ndfl he]
+    simp [hom, hreq]
+  · apply vProps_all
+    rintro ⟨k, s⟩ hks x hlx
+    have hkn : k ∈ fields.map (·.name) := by
+      rw [← hkeys]; exact List.mem_map.2 ⟨(k, s), hks, rfl⟩
+    obtain ⟨f, hf, hfk⟩ := List.mem_map.1 hkn
+    obtain ⟨e, he, hk, hom, hnull, hval⟩ := ha.mem_left hf
+    obtain ⟨ek, eom, egv⟩ := e
+    simp only at hk hom hnull hval
+    subst hk
+    simp only at hlx
+    rw [← hfk, lookup_encFields_full ndfl he] at hlx
+    by_cases hxn : ((Json.lookup f.name members).getD .null).isNull = true
+    · obtain ⟨hnil, hreq⟩ := hnull hxn
+      subst hnil
+      simp [hom, hreq, isEmpty] at hlx
+    · simp only [Bool.not_eq_true] at hxn
+      obtain ⟨nd, hnd, hvalid⟩ := hval hxn
+      have hs : s = .obj nd := by
+        have h1 := rget_js_of_mem (by rw [hkeys]; exact ndf') hks
+        rw [← hfk, hnd] at h1
+        cases h1; rfl
+      subst hs
+      split at hlx
+      · simp at hlx
+      · cases hlx; exact hvalid
+
+/-! ### helper facts for the induction -/
+
+theorem lastArg_none (table : List (String × String)) (kw : String) (cs : List Constraint)
+    (h : ∀ op, rget op table ≠ some kw) : lastArg table kw cs = none := by
+  induction cs with
+  | nil => rfl
+  | cons c cs ih => simp [lastArg, ih, h c.op]
+
+theorem noref_number (op : String) : rget op numberOps ≠ some "$ref" := by
+  intro h
+  rcases numberOps_cases h with ⟨_, h⟩ | ⟨_, h⟩ | ⟨_, h⟩ | ⟨_, h⟩ | ⟨_, h⟩ <;> simp at h
+
+theorem noref_string (op : String) : rget op stringOps ≠ some "$ref" := by
+  intro h
+  rcases stringOps_cases h with ⟨_, h⟩ | ⟨_, h⟩ <;> simp at h
+
+theorem noref_scalarBase (kind : String) (cs : List Constraint) (dt : Bool) :
+    rget "$ref" (scalarBase kind cs dt) = none := by
+  unfold scalarBase
+  split
+  · simp [rget]
+  · split
+    · simp [rget]
+    · split
+      · rw [rget_addConstraints, lastArg_none _ _ _ noref_string]; simp [rget]
+      · split
+        · split
+          · rw [rget_rset_ne (by decide), rget_addConstraints, lastArg_none _ _ _ noref_string]; simp [rget]
+          · rw [rget_addConstraints, lastArg_none _ _ _ noref_string]; simp [rget]
+        · split
+          · simp [rget]
+          · split
+            · rw [rget_addConstraints, lastArg_none _ _ _ noref_number]; simp [rget]
+            · split
+              · rw [rget_addConstraints, lastArg_none _ _ _ noref_number]; simp [rget]
+              · rfl
+
+theorem noref_emitScalar (kind : String) (v : Val) (cs : List Constraint) (dt : Bool) :
+    rget "$ref" (emitScalar kind v cs dt) = none := by
+  unfold emitScalar
+  split
+  · exact noref_scalarBase _ _ _
+  · rw [rget_rset_ne (by decide)]; exact noref_scalarBase _ _ _
+
+theorem wrapPtr_enc {b : Bool} {j : Json} {r : DRes GoVal} {v : GoVal} (hj : j.isNull = false) (hr : r = .ok v) :
+    ∃ w, wrapPtr b j r = .ok w ∧ goEncode w = goEncode v := by
+  subst hr
+  cases b with
+  | true => exact ⟨.ptr v, by simp [wrapPtr, hj, DRes.map, DRes.bind], by simp [goEncode]⟩
+  | false => exact ⟨v, by simp [wrapPtr], rfl⟩
+
+theorem valid_anyDef (R : String → Json → Bool) (ms : List (String × Json)) :
+    vNode R (.obj anyDef) (.obj ms) = true := by
+  simp [anyDef, vNode, rget, vKws, kwLeaf, typeOK, propNames]
+
+theorem enumOK_member (vs : List EnumVal) (j : Json) : enumOK (enumValues vs) j = enumMember vs j := by
+  induction vs with
+  | nil => rfl
+  | cons a t ih => simp [enumValues, enumOK, enumMember, ih]
+
+theorem strsOf_map (l : List String) : strsOf (l.map .str) = l := by
+  induction l with
+  | nil => rfl
+  | cons a t ih => simp [strsOf, ih]
+
+theorem mem_rset_gen {V : Type} {k : String} {v : V} {d : List (String × V)} {e : String × V}
+    (h : e ∈ rset k v d) : e = (k, v) ∨ e ∈ d := by
+  induction d with
+  | nil => simp [rset] at h; exact Or.inl h
+  | cons a t ih =>
+    obtain ⟨k', v'⟩ := a
+    simp only [rset] at h
+    split at h
+    · rcases List.mem_cons.1 h with h1 | h1
+      · exact Or.inl h1
+      · exact Or.inr (List.mem_cons_of_mem _ h1)
+    · rcases List.mem_cons.1 h with h1 | h1
+      · exact Or.inr (by rw [h1]; simp)
+      · rcases ih h1 with h2 | h2
+        · exact Or.inl h2
+        · exact Or.inr (List.mem_cons_of_mem _ h2)
+
+theorem mem_foldl_rset {V : Type} (l : List (String × V)) (acc : List (String × V)) {e : String × V}
+    (h : e ∈ l.foldl (fun acc kv => rset kv.1 kv.2 acc) acc) : e ∈ acc ∨ e ∈ l := by
+  induction l generalizing acc with
+  | nil => exact Or.inl h
+  | cons a t ih =>
+    simp only [List.foldl_cons] at h
+    rcases ih _ h with h1 | h1
+    · rcases mem_rset_gen h1 with h2 | h2
+      · exact Or.inr (by rw [h2]; simp)
+      · exact Or.inl h2
+    · exact Or.inr (List.mem_cons_of_mem _ h1)
+
+theorem describes_ref_meta (D : Def) (n : Nat) (ss : Schemas) (p name : String) (m1 m2 : Meta) (node : Def) :
+    describes D n ss (.ref p name m1) node = describes D n ss (.ref p name m2) node := by
+  cases n <;> simp only [describes]
+
+theorem sat_ref_meta (n : Nat) (ss : Schemas) (p name : String) (m1 m2 : Meta) (j : Json) :
+    sat n ss (.ref p name m1) j = sat n ss (.ref p name m2) j := by
+  cases n <;> simp only [sat]
+
+theorem list_valid {D : Def} {ss : Schemas} {n F : Nat} (ih : PH D ss n) (hF : n ≤ F) (e : Ty) (en : Def)
+    (hdesc : describes D n ss e en = true) (xs : List Json)
+    (hden : xs.all (den n ss e) = true) (hsat : xs.all (sat n ss e) = true) :
+    ∃ vs, mapRes (goDecode n ss e) xs = .ok vs ∧
+      (encList vs).all (fun x => vNode (Rec D F) (.obj en) x) = true := by
+  induction xs with
+  | nil => exact ⟨[], rfl, rfl⟩
+  | cons x xs ihx =>
+    simp only [List.all_cons, Bool.and_eq_true] at hden hsat
+    obtain ⟨v, hv, hval⟩ := ih F hF e en x hdesc hden.1 hsat.1
+    obtain ⟨vs, hvs, hall⟩ := ihx hden.2 hsat.2
+    exact ⟨v :: vs, by simp [mapRes, hv, hvs, DRes.bind], by simp [encList, hval, hall]⟩
+
+theorem map_valid {D : Def} {ss : Schemas} {n F : Nat} (ih : PH D ss n) (hF : n ≤ F) (vt : Ty) (vn : Def)
+    (hdesc : describes D n ss vt vn = true) (kvs : List (String × Json))
+    (hden : kvs.all (fun kv => den n ss vt kv.2) = true) (hsat : kvs.all (fun kv => sat n ss vt kv.2) = true) :
+    ∃ l, mapRes (fun (kv : String × Json) => (goDecode n ss vt kv.2).map fun x => (kv.1, x)) kvs = .ok l ∧
+      ∀ e ∈ l, vNode (Rec D F) (.obj vn) (goEncode e.2) = true := by
+  induction kvs with
+  | nil => exact ⟨[], rfl, by simp⟩
+  | cons kv t iht =>
+    simp only [List.all_cons, Bool.and_eq_true] at hden hsat
+    obtain ⟨v, hv, hval⟩ := ih F hF vt vn kv.2 hdesc hden.1 hsat.1
+    obtain ⟨l, hl, hall⟩ := iht hden.2 hsat.2
+    refine ⟨(kv.1, v) :: l, ?_, ?_⟩
+    · simp only [mapRes, hv, DRes.map, DRes.bind] at hl ⊢
+      rw [hl]
+    · intro e he
+      rcases List.mem_cons.1 he with h | h
+      · subst h; exact hval
+      · exact hall e h
+
+theorem branches_any {D : Def} {ss : Schemas} {n F : Nat} (R : String → Json → Bool) (j : Json) :
+    ∀ (fs : List Field) (ns : List JS),
+      describesBranchesWith (describes D n ss) fs ns = true →
+      (∃ f ∈ fs, ∀ nd, describes D n ss (noNull f.ty) nd = true → vNode R (.obj nd) j = true) →
+      vAny R ns j = true
+  | [], _, _, h => by obtain ⟨f, hf, _⟩ := h; simp at hf
+  | f :: fs, [], hd, _ => by simp [describesBranchesWith] at hd
+  | f :: fs, nd :: ns, hd, h => by
+    cases nd with
+    | obj ndd =>
+      simp only [describesBranchesWith, Bool.and_eq_true] at hd
+      obtain ⟨g, hg, hv⟩ := h
+      simp only [vAny, Bool.or_eq_true]
+      rcases List.mem_cons.1 hg with h1 | h1
+      · subst h1; exact Or.inl (hv ndd hd.1)
+      · exact Or.inr (branches_any (D := D) (ss := ss) (n := n) (F := F) R j fs ns hd.2 ⟨g, h1, hv⟩)
+    | _ => simp [describesBranchesWith] at hd
+
+theorem anyDescribes_mem (d : Def → Bool) : ∀ (ns : List JS), anyDescribes d ns = true →
+    ∃ nd, JS.obj nd ∈ ns ∧ d nd = true
+  | [], h => by simp [anyDescribes] at h
+  | n :: ns, h => by
+    cases n with
+    | obj nd =>
+      simp only [anyDescribes, Bool.or_eq_true] at h
+      rcases h with h | h
+      · exact ⟨nd, by simp, h⟩
+      · obtain ⟨nd', h1, h2⟩ := anyDescribes_mem d ns h
+        exact ⟨nd', List.mem_cons_of_mem _ h1, h2⟩
+    | _ =>
+      simp only [anyDescribes] at h
+      obtain ⟨nd', h1, h2⟩ := anyDescribes_mem d ns h
+      exact ⟨nd', List.mem_cons_of_mem _ h1, h2⟩
+
+theorem close_ref {D : Def} {node nd : Def} {n F : Nat} (hdr : deref D (core node) = some nd) (hF : n + 1 ≤ F)
+    {r : DRes GoVal}
+    (key : ∀ F', n ≤ F' → ∃ v, r = .ok v ∧ vNode (Rec D F') (.obj nd) (goEncode v) = true) :
+    ∃ v, r = .ok v ∧ vNode (Rec D F) (.obj node) (goEncode v) = true := by
+  obtain ⟨v, hv, _⟩ := key F (by omega)
+  refine ⟨v, hv, deref_valid hdr hF _ ?_⟩
+  intro F' hF'
+  obtain ⟨v', hv', hval⟩ := key F' hF'
+  rw [hv] at hv'; cases hv'
+  exact hval
+
+theorem close_ref_ptr {D : Def} {node nd : Def} {n F : Nat} (hdr : deref D (core node) = some nd) (hF : n + 1 ≤ F)
+    {r : DRes GoVal} {b : Bool} {j : Json} (hnn : j.isNull = false)
+    (key : ∀ F', n ≤ F' → ∃ v, r = .ok v ∧ vNode (Rec D F') (.obj nd) (goEncode v) = true) :
+    ∃ w, wrapPtr b j r = .ok w ∧ vNode (Rec D F) (.obj node) (goEncode w) = true := by
+  obtain ⟨v, hv, hval⟩ := close_ref hdr hF key
+  obtain ⟨w, hw, henc⟩ := wrapPtr_enc (b := b) hnn hv
+  exact ⟨w, hw, by rw [henc]; exact hval⟩
+
+theorem mem_requiredNames {fs : List Field} {x : String} (h : x ∈ requiredNames fs) :
+    ∃ f ∈ fs, f.required = true ∧ f.name = x := by
+  rw [requiredNames_eq] at h
+  obtain ⟨f, hf, rfl⟩ := List.mem_map.1 h
+  obtain ⟨h1, h2⟩ := List.mem_filter.1 hf
+  exact ⟨f, h1, h2, rfl⟩
+
+/-- the struct node accepts the encoded fields -/
+theorem struct_node_valid (R : String → Json → Bool) (fields : List Field) (nd : Def) (rs : List JS) (ps : Def)
+    (hn : isStructNode nd = some (rs, ps)) (hrs : rs = (requiredNames fields).map .str)
+    (ms : List (String × Json))
+    (h1 : ∀ kv ∈ ms, kv.1 ∈ fields.map (·.name))
+    (h2 : ∀ f ∈ fields, f.required = true → (Json.lookup f.name ms).isSome = true)
+    (h3 : vProps R ps ms = true) (h4 : ps.map (·.1) = fields.map (·.name)) :
+    vNode R (.obj nd) (.obj ms) = true := by
+  have hadd : ms.all (fun kv => (ps.map (·.1)).contains kv.1) = true := by
+    rw [List.all_eq_true]
+    intro kv hkv
+    rw [h4]
+    simpa using h1 kv hkv
+  rcases isStructNode_some hn with ⟨_, hd⟩ | hd
+  · rw [hd, valid_struct_noreq, hadd, h3]; rfl
+  · rw [hd, valid_struct_req, hadd, h3]
+    have : (strsOf rs).all (fun n => (Json.lookup n ms).isSome) = true := by
+      rw [hrs, strsOf_map, List.all_eq_true]
+      intro x hx
+      obtain ⟨f, hf, hreq, rfl⟩ := mem_requiredNames hx
+      exact h2 f hf hreq
+    rw [this]; rfl
+
+/-! ### the induction -/
+
+theorem describes_sound (D : Def) (ss : Schemas) : ∀ n, PH D ss n := by
+  intro n
+  induction n with
+  | zero => intro F _ t node j _ h _; simp [den] at h
+  | succ n ih =>
+    intro F hF t node j hdesc hden hsat
+    have hFn : n ≤ F := by omega
+    cases t with
+    | scalar kind val cs m =>
+      simp only [den] at hden
+      simp only [sat, Bool.and_eq_true, Bool.not_eq_true'] at hsat
+      simp only [describes] at hdesc
+      obtain ⟨hnn, hsat⟩ := hsat
+      have hcore := jsBeqKvs_eq _ _ hdesc
+      simp only [goDecode]
+      by_cases hb : kind = "bytes"
+      · simp [hb] at hden
+      · simp only [hb, if_false] at hden ⊢
+        by_cases ha : kind = "any"
+        · subst ha
+          simp only [if_true, Bool.and_eq_true] at hden hsat ⊢
+          cases j with
+          | obj kvs =>
+            refine ⟨.iface (.obj kvs), decodeScalar_any_nonnull _ rfl hden.1, ?_⟩
+            rw [← vNode_core, hcore]
+            have hv : isNilVal val = true := hsat.1
+            simp only [emitScalar, hv, if_true, scalarBase, goEncode, ifaceEnc]
+            exact valid_anyDef _ _
+          | null | bool _ | num _ | str _ | arr _ => simp at hsat
+        · simp only [ha, if_false] at hden hsat ⊢
+          have finish : ∀ v, goEncode v = j → denScalar kind j = true →
+              vNode (Rec D F) (.obj node) (goEncode v) = true := by
+            intro v hv hds
+            rw [hv, ← vNode_core, hcore, vNode_obj _ _ _ (noref_emitScalar _ _ _ _)]
+            exact scalar_valid _ _ kind val cs _ j ha hb hds hsat
+          by_cases hd : hasHint m "string_format_datetime" = true
+          · simp only [hd, if_true, Bool.or_eq_true, Bool.and_eq_true] at hden
+            rcases hden with hden | hden
+            · rw [hden.2] at hnn; exact absurd hnn (by simp)
+            · cases j with
+              | str x =>
+                simp only [decide_eq_true_eq] at hden
+                subst hden
+                obtain ⟨w, hw, henc⟩ := wrapPtr_enc (b := m.nullable) hnn (decodeScalar_dt x)
+                rw [hd]
+                refine ⟨w, hw, ?_⟩
+                rw [henc]
+                exact finish (.time x) rfl (by simp [denScalar])
+              | null | bool _ | num _ | arr _ | obj _ => simp at hden
+          · simp only [hd, Bool.false_eq_true, if_false, Bool.or_eq_true, Bool.and_eq_true] at hden
+            have hd' : hasHint m "string_format_datetime" = false := by simpa using hd
+            rcases hden with hden | hden
+            · rw [hden.2] at hnn; exact absurd hnn (by simp)
+            · obtain ⟨_, v, hv, henc, _, _⟩ := denScalar_decode ha hden
+              rw [hd']
+              obtain ⟨w, hw, henc'⟩ := wrapPtr_enc (b := m.nullable) hnn hv
+              exact ⟨w, hw, by rw [henc']; exact finish v henc hden⟩
+    | array e m =>
+      simp only [den, Bool.and_eq_true, Bool.not_eq_true'] at hden
+      simp only [sat, Bool.and_eq_true, Bool.not_eq_true'] at hsat
+      simp only [describes] at hdesc
+      obtain ⟨hbyte, hden⟩ := hden
+      cases hnode : isArrayNode (core node) with
+      | none => simp [hnode] at hdesc
+      | some en =>
+        simp only [hnode] at hdesc
+        simp only [goDecode, hbyte, Bool.false_eq_true, if_false]
+        cases j with
+        | arr xs =>
+          simp only at hden hsat
+          obtain ⟨vs, hvs, hall⟩ := list_valid ih hFn e en hdesc xs hden hsat.2
+          refine ⟨.slice vs, by simp [hvs, DRes.map, DRes.bind], ?_⟩
+          rw [← vNode_core, isArrayNode_some hnode]
+          simp only [goEncode]
+          rw [valid_array]; exact hall
+        | null | bool _ | num _ | str _ | obj _ => simp [Json.isNull] at hsat
+    | map idx vt m =>
+      simp only [den] at hden
+      simp only [sat, Bool.and_eq_true, Bool.not_eq_true'] at hsat
+      simp only [describes] at hdesc
+      simp only [goDecode]
+      split at hden
+      · cases hnode : isMapNode (core node) with
+        | none => simp [hnode] at hdesc
+        | some vn =>
+          simp only [hnode] at hdesc
+          cases j with
+          | obj kvs =>
+            simp only [Bool.and_eq_true] at hden hsat
+            obtain ⟨l, hl, hall⟩ := map_valid ih hFn vt vn hdesc kvs hden.2 hsat.2
+            refine ⟨.gomap (l.foldl (fun acc kv => Cog.OMap.rset kv.1 kv.2 acc) []), by dsimp only; rw [hl]; rfl, ?_⟩
+            rw [← vNode_core, isMapNode_some hnode]
+            simp only [goEncode]
+            rw [valid_map, List.all_eq_true]
+            rintro ⟨k, x⟩ hx
+            obtain ⟨gv, hg, rfl⟩ := mem_encMap hx
+            rcases mem_foldl_rset l [] hg with h | h
+            · simp at h
+            · exact hall _ h
+          | null | bool _ | num _ | str _ | arr _ => simp [Json.isNull] at hsat
+      · simp at hden
+    | ref pkg name m =>
+      simp only [den] at hden
+      simp only [sat, Bool.and_eq_true, Bool.not_eq_true'] at hsat
+      simp only [describes] at hdesc
+      simp only [goDecode]
+      obtain ⟨hnn, hsat⟩ := hsat
+      cases ho : Schemas.locateObject ss pkg name with
+      | none => simp [ho] at hden
+      | some o =>
+        simp only [ho] at hden hsat hdesc ⊢
+        cases hdr : deref D (core node) with
+        | none => simp [hdr] at hdesc
+        | some nd =>
+          simp only [hdr] at hdesc
+          cases hty : o.ty with
+          | struct fields gen gi sm =>
+            cases gi with
+            | none =>
+              simp only [hty] at hden hsat hdesc ⊢
+              cases hsn : isStructNode nd with
+              | none => simp [hsn] at hdesc
+              | some rp =>
+                obtain ⟨rs, ps⟩ := rp
+                simp only [hsn, Bool.and_eq_true] at hdesc
+                obtain ⟨⟨hrs, _⟩, hdf⟩ := hdesc
+                cases j with
+                | obj members =>
+                  simp only [Json.isNull, Bool.and_false, Bool.false_or, Bool.and_eq_true] at hden
+                  obtain ⟨⟨⟨h1, h2⟩, h3⟩, h4⟩ := hden
+                  apply close_ref_ptr hdr hF hnn
+                  intro F' hF'
+                  obtain ⟨fl, hfl, g1, g2, g3, g4⟩ := fields_valid ih hF' fields ps members h1 h2 h3 h4 hsat hdf
+                  refine ⟨.struct fl, by dsimp only; rw [hfl]; rfl, ?_⟩
+                  simp only [goEncode]
+                  exact struct_node_valid _ fields nd rs ps hsn (jsBeqList_eq _ _ hrs) _ g1 g2 g3 g4
+                | null | bool _ | num _ | str _ | arr _ => simp at hsat
+            | some hi =>
+              obtain ⟨hint, info⟩ := hi
+              simp only [hty] at hden hsat hdesc ⊢
+              cases han : isAnyOfNode nd with
+              | none => simp [han] at hdesc
+              | some ns =>
+                simp only [han] at hdesc
+                have hndeq := isAnyOfNode_some han
+                by_cases hs : hint = "disjunction_of_scalars"
+                · subst hs
+                  simp only [if_true, Bool.or_eq_true, Bool.and_eq_true, decide_eq_true_eq] at hden hsat hdesc ⊢
+                  rcases hden with hden | hden
+                  · rw [hden.2] at hnn; exact absurd hnn (by simp)
+                  · obtain ⟨⟨⟨⟨hn2, hnonull⟩, _⟩, hany⟩, hsimple⟩ := hden
+                    obtain ⟨n', rfl⟩ : ∃ n', n = n' + 2 := ⟨n - 2, by omega⟩
+                    obtain ⟨bs, hbs, henc⟩ := scalar_union_case n' ss j hnonull fields hsimple hany [] (by simp)
+                    apply close_ref_ptr hdr hF hnn
+                    intro F' hF'
+                    refine ⟨.union bs, by rw [hbs]; rfl, ?_⟩
+                    simp only [goEncode]
+                    rw [henc, hndeq, valid_anyOf]
+                    obtain ⟨f, hf, hdenf⟩ := List.any_eq_true.1 hany
+                    apply branches_any (D := D) (ss := ss) (n := n' + 2) (F := F') _ j fields ns hdesc
+                    refine ⟨f, hf, ?_⟩
+                    intro ndd hdd
+                    have hsatf : sat (n' + 2) ss (noNull f.ty) j = true := by
+                      have := (List.all_eq_true.1 hsat) f hf
+                      simp only [Bool.or_eq_true, Bool.not_eq_true'] at this
+                      rcases this with h | h
+                      · simp only [noNull] at h; rw [hdenf] at h; exact absurd h (by simp)
+                      · exact h
+                    obtain ⟨v, hv, hval⟩ := ih F' hF' (noNull f.ty) ndd j hdd (by simpa [noNull] using hdenf) hsatf
+                    have hsb := (List.all_eq_true.1 hsimple) f hf
+                    rcases simple_branch n' ss f hsb j hnonull with ⟨_, v', hv', henc', _⟩ | ⟨h1, _⟩
+                    · simp only [noNull] at hv
+                      rw [hv'] at hv; cases hv
+                      rw [henc'] at hval; exact hval
+                    · rw [hdenf] at h1; exact absurd h1 (by simp)
+                · simp only [hs, if_false] at hden hsat hdesc ⊢
+                  cases j with
+                  | obj members =>
+                    simp only [Json.isNull, Bool.and_false, Bool.false_or] at hden
+                    cases hd : Json.lookup info.discriminator members with
+                    | none => simp [hd] at hden
+                    | some d =>
+                      cases d with
+                      | str tag =>
+                        simp only [hd, Bool.and_eq_true, bne_iff_ne, ne_eq] at hden hsat
+                        obtain ⟨_, hden⟩ := hden
+                        cases hm : info.mapping.find? (fun kv => kv.1 == tag) with
+                        | none => simp [hm] at hden
+                        | some kv =>
+                          simp only [hm, Bool.and_eq_true] at hden hsat
+                          obtain ⟨⟨hbf, _⟩, hdenk⟩ := hden
+                          cases hf : fieldByRefName fields kv.2 with
+                          | none => simp [hf] at hbf
+                          | some bf =>
+                            have hkvmem : kv ∈ info.mapping := List.mem_of_find?_eq_some hm
+                            obtain ⟨ndk, hndk, hdk⟩ := anyDescribes_mem _ ns ((List.all_eq_true.1 hdesc) kv hkvmem)
+                            have hbfmem : ∃ f ∈ fields, (f.name == bf.name) = true := by
+                              unfold fieldByRefName at hf
+                              exact ⟨bf, List.mem_of_find?_eq_some hf, by simp⟩
+                            apply close_ref_ptr hdr hF hnn
+                            intro F' hF'
+                            obtain ⟨v, hv, hval⟩ := ih F' hF' (.ref pkg kv.2 {}) ndk (.obj members) hdk hdenk hsat
+                            refine ⟨.union (fields.map fun f => (f.name, if f.name == bf.name then GoVal.ptr v else GoVal.nil)), ?_, ?_⟩
+                            · simp only [hd, hm, hf, hv, DRes.map, DRes.bind]
+                            · simp only [goEncode]
+                              rw [encUnion_select fields bf.name v hbfmem, hndeq, valid_anyOf]
+                              exact vAny_mem _ ns _ _ hndk hval
+                      | null | bool _ | num _ | arr _ | obj _ => simp [hd] at hden
+                  | null | bool _ | num _ | str _ | arr _ => simp at hsat
+          | enum vals em =>
+            cases vals with
+            | nil => simp [hty] at hden
+            | cons v0 rest =>
+              simp only [hty, Bool.or_eq_true, Bool.and_eq_true] at hden hsat hdesc ⊢
+              cases hen : isEnumNode nd with
+              | none => simp [hen] at hdesc
+              | some xs =>
+                simp only [hen] at hdesc
+                rcases hden with hden | hden
+                · rw [hden.2] at hnn; exact absurd hnn (by simp)
+                · have hk : v0.kind ≠ "any" := by
+                    intro c; rw [c] at hden; simp [denScalar, intRange] at hden
+                  obtain ⟨_, v, hv, henc, _, _⟩ := denScalar_decode hk hden
+                  apply close_ref_ptr hdr hF hnn
+                  intro F' _
+                  refine ⟨v, hv, ?_⟩
+                  rw [henc, isEnumNode_some hen, valid_enum, jsBeqList_eq _ _ hdesc, enumOK_member]
+                  exact hsat
+          | scalar kind sv scs om =>
+            simp only [hty, Bool.and_eq_true, Bool.or_eq_true, bne_iff_ne, ne_eq, Bool.not_eq_true'] at hden hsat hdesc ⊢
+            obtain ⟨⟨⟨⟨_, hb⟩, ha⟩, hdt⟩, hden⟩ := hden
+            simp only [hb, if_false, hdt, ha] at hsat ⊢
+            have hndeq := jsBeqKvs_eq _ _ hdesc
+            rcases hden with hden | hden
+            · rw [hden.2] at hnn; exact absurd hnn (by simp)
+            · obtain ⟨_, v, hv, henc, _, _⟩ := denScalar_decode ha hden
+              apply close_ref_ptr hdr hF hnn
+              intro F' _
+              refine ⟨v, hv, ?_⟩
+              rw [henc, hndeq, vNode_obj _ _ _ (noref_emitScalar _ _ _ _)]
+              exact scalar_valid _ _ kind sv scs _ j ha hb hden hsat.2
+          | array ae am =>
+            simp only [hty, Bool.and_eq_true, Bool.not_eq_true'] at hden hsat hdesc ⊢
+            apply close_ref hdr hF
+            intro F' hF'
+            exact ih F' hF' _ nd j hdesc hden.2 hsat
+          | map mi mv mm =>
+            simp only [hty, Bool.and_eq_true, Bool.not_eq_true'] at hden hsat hdesc ⊢
+            apply close_ref hdr hF
+            intro F' hF'
+            exact ih F' hF' _ nd j hdesc hden.2 hsat
+          | ref rp rn rm =>
+            simp only [hty] at hden hsat hdesc ⊢
+            apply close_ref hdr hF
+            intro F' hF'
+            rw [describes_ref_meta D n ss rp rn rm { rm with nullable := m.nullable }] at hdesc
+            rw [sat_ref_meta n ss rp rn rm { rm with nullable := m.nullable }] at hsat
+            exact ih F' hF' _ nd j hdesc hden hsat
+          | cref _ _ _ _ => simp [hty] at hden
+          | disj _ _ _ => simp [hty] at hden
+          | inter _ _ => simp [hty] at hden
+          | slot _ _ => simp [hty] at hden
+          | bad _ _ => simp [hty] at hden
+    | cref pkg name val m => simp [den] at hden
+    | struct _ _ _ _ => simp [den] at hden
+    | enum _ _ => simp [den] at hden
+    | disj _ _ _ => simp [den] at hden
+    | inter _ _ => simp [den] at hden
+    | slot _ _ => simp [den] at hden
+    | bad _ _ => simp [den] at hden
+
 end Cog.Sem.JSOut
